@@ -34,6 +34,10 @@ func (c18) MinNontrivial(tier string) int { return tierN(tier, 600, 6000) }
 var c18Validator = validator.New(validator.WithRequiredStructEnabled())
 
 func (p c18) Run(c *core.Ctx) {
+	if c.Index%12 == 7 {
+		p.repeated(c)
+		return
+	}
 	switch c.Index % 3 {
 	case 0:
 		p.expression(c)
@@ -439,4 +443,136 @@ func (p c18) pointerValidation(c *core.Ctx, env c18Env) {
 	if fails {
 		c.Nontrivial(tag)
 	}
+}
+
+// repeated: the same tag text is evaluated more than once - on a second component, or by a re-attempted
+// creation of a component that is fetched on demand - and the configuration feeding its placeholder
+// may change in between. Every evaluation substitutes first, evaluates second and validates the result
+// of that evaluation.
+func (p c18) repeated(c *core.Ctx) {
+	n1, n2 := c.Rng.Intn(12), c.Rng.Intn(12)
+	factor := 1 + c.Rng.Intn(3)
+	cons := genConstraintsFor(c, "int")
+	body := "${rv.n:1}"
+	useExpr := c.Rng.Intn(3) > 0
+	if useExpr {
+		body = fmt.Sprintf("#{${rv.n:1}*%d}", factor)
+	} else {
+		factor = 1
+	}
+	withValidate := c.Rng.Intn(4) > 0
+	val := body
+	if withValidate {
+		val += ",validate=" + cons
+	}
+	objects := func(v int) bool {
+		if !withValidate {
+			return false
+		}
+		f, pan := verdict(v, cons)
+		return f || pan != nil
+	}
+	if withValidate {
+		if _, pan := verdict(n1, cons); pan != nil {
+			return
+		}
+	}
+	doc := fmt.Sprintf("rv:\n  n: %d\nother: x\n", n1)
+	detail := map[string]any{"tag_value": val, "config": doc, "second_value_of_rv.n": n2}
+	if c.Rng.Intn(2) == 0 {
+		// two components with the same tag text; the first one's Init changes the key
+		g := world.NewG(c.Rng)
+		first := g.AddNode(0, "a-first")
+		second := g.AddNode(1, "z-second")
+		for _, k := range []int{first, second} {
+			g.Sc.Nodes[k].Cfg = map[string]world.TagSpec{"CfgI": {Tag: "value", Val: val}}
+		}
+		g.Sc.Config = doc
+		var run *world.Run
+		done := false
+		run = world.Build(g.Sc, world.Options{NoTracer: true, Hook: func(kind string, who world.Node) {
+			if kind == "init" && who.DisplayName() == "a-first" && !done {
+				done = true
+				run.App.Set("rv.n", n2)
+			}
+		}})
+		run.Go()
+		c.Count("starts", 1)
+		detail["shape"] = "two components, key set in the Init of the first"
+		detail["outcome"] = core.Short(run.OutcomeDetail(), 300)
+		if abnormal(run.Outcome()) {
+			c.Fail("", "start: "+run.OutcomeDetail(), detail)
+			return
+		}
+		wantErr := objects(n1*factor) || objects(n2*factor)
+		if wantErr != (run.Outcome() == "error") {
+			c.Fail("", fmt.Sprintf("tag %q on two components, rv.n=%d for the first and %d for the second: validator objects=%v, start outcome %s", val, n1, n2, wantErr, run.Outcome()), detail)
+			return
+		}
+		if !wantErr {
+			g1, g2 := run.Nodes[first].Slot().CfgI, run.Nodes[second].Slot().CfgI
+			if g1 != n1*factor || g2 != n2*factor {
+				c.Fail("", fmt.Sprintf("tag %q: first component holds %d (expected %d), second component - created after rv.n was set to %d - holds %d (expected %d)", val, g1, n1*factor, n2, g2, n2*factor), detail)
+				return
+			}
+		}
+		c.Count("repeated_evaluations_checked", 2)
+		c.Nontrivial(fmt.Sprint("repeated2|", val, n1, n2))
+		return
+	}
+	// one component fetched on demand, attempted up to three times
+	g := world.NewG(c.Rng)
+	h := g.AddNode(8, "on-demand")
+	g.Sc.Nodes[h].Cfg = map[string]world.TagSpec{"CfgI": {Tag: "value", Val: val}}
+	firstObjects := objects(n1 * factor)
+	if !firstObjects {
+		g.Sc.Nodes[h].FailOnce = []string{"init"} // the first attempt fails anyway, after its tags were processed
+	}
+	g.Sc.Config = doc
+	run := world.Build(g.Sc, world.Options{NoTracer: true})
+	run.Go()
+	c.Count("starts", 1)
+	detail["shape"] = "one component fetched on demand"
+	if run.Outcome() != "ok" {
+		c.Fail("", "start with a lazy, unreferenced component did not succeed: "+core.Short(run.OutcomeDetail(), 300), detail)
+		return
+	}
+	var err error
+	run.Guard(func() { _, err = run.App.GetComponentByName("on-demand") })
+	if err == nil || run.Panic != nil {
+		c.Fail("", fmt.Sprintf("first attempt with rv.n=%d, tag %q: expected an error (validator objects=%v), got err=%v panic=%v", n1, val, firstObjects, err, run.Panic), detail)
+		return
+	}
+	cur := n1
+	attempts := []string{fmt.Sprintf("1: rv.n=%d -> error", n1)}
+	for a := 2; a <= 3; a++ {
+		if c.Rng.Intn(3) > 0 {
+			cur = n2
+			run.App.Set("rv.n", cur)
+			if a == 2 {
+				n2 = c.Rng.Intn(12) // a third value for the last attempt
+			}
+		}
+		want := objects(cur * factor)
+		run.Guard(func() { _, err = run.App.GetComponentByName("on-demand") })
+		attempts = append(attempts, fmt.Sprintf("%d: rv.n=%d -> err=%v", a, cur, err != nil))
+		detail["attempts"] = attempts
+		if run.Panic != nil {
+			c.Fail("", fmt.Sprintf("attempt %d panicked: %v", a, run.Panic), detail)
+			return
+		}
+		if want != (err != nil) {
+			c.Fail("", fmt.Sprintf("attempt %d with rv.n=%d, tag %q: validator objects=%v but the creation returned err=%v", a, cur, val, want, err), detail)
+			return
+		}
+		c.Count("repeated_evaluations_checked", 1)
+		if err == nil {
+			if got := run.Nodes[h].Slot().CfgI; got != cur*factor {
+				c.Fail("", fmt.Sprintf("attempt %d with rv.n=%d, tag %q: field holds %d, expected %d", a, cur, val, got, cur*factor), detail)
+				return
+			}
+			break
+		}
+	}
+	c.Nontrivial(fmt.Sprint("repeated1|", val, attempts))
 }
